@@ -42,7 +42,7 @@ def inner_config_source(F, ck):
         ptys = [fn.types[b['t']] if b.get('t') is not None else '' for p in fn.params for b in pat_binds(p)]
         if not any('CircuitBuilder' in t for t in ptys):
             continue
-        fl = flow.Flow(F, fn, opaque=('CircuitBuilder',))
+        fl = flow.Flow(F, fn)
         for e in fl.events:
             if e.kind != 'call' or (e.callee or '').startswith(('core::', 'std::')) or e.name in ('assert_failed',):
                 continue
@@ -51,7 +51,11 @@ def inner_config_source(F, ck):
                 if t not in CFG_TYPES:
                     continue
                 n += 1
-                roots = {a[2:].split('.')[0].split('[')[0] for a in flow.flat(v) if a.startswith('p:')} - {'self'}
+                roots = {a[2:].split('.')[0].split('[')[0] for a in flow.flat(v) if a.startswith('p:')} - {'self', 'builder'}
+                # any part taken from the builder's own configuration disqualifies the argument, even if another part (e.g. the degree)
+                # comes from the inner circuit
+                if 'F:CircuitBuilder.config' in flow.flat(v):
+                    roots = set()
                 if (fn.name, e.name) in OUTER_CONFIG_OK:
                     ck.ob('R06.6', 'cfg:%s:%s:%s' % (fn.qual, e.name, t), True, 'reviewed: ' + OUTER_CONFIG_OK[(fn.name, e.name)], e.loc())
                     continue
